@@ -28,6 +28,7 @@ called by get().  Behaviours that extend a failed behaviour are skipped (the sta
 import copy
 import json
 import random
+import time
 import warnings
 from concurrent.futures import ThreadPoolExecutor
 
@@ -170,8 +171,24 @@ class Universe:
                 if canon(decode(e, rev)) != canon_entries(e):
                     raise TLCFailure(f"projection is not inverse on universe member {i + 1}")
 
+        # fresh objects at C speed: the json text of both presentations (atoms are immutable: shared)
+        self._mk = {}
+        for rev in (False, True):
+            for i, e in enumerate(self.entries):
+                obj = decode(e, rev)
+                if isinstance(obj, (dict, list)) != self.unhashable[i]:
+                    raise TLCFailure(f"universe member {i + 1}: the spec's Unhashable disagrees with python")
+                if isinstance(obj, (dict, list)):
+                    text = json.dumps(obj)
+                    if canon(json.loads(text)) != canon_entries(e) or list(json.loads(text)) != list(obj):
+                        raise TLCFailure(f"json round trip changes universe member {i + 1}")
+                    self._mk[(i + 1, rev)] = text
+                else:
+                    self._mk[(i + 1, rev)] = obj
+
     def key(self, i, rev=False):
-        return decode(self.entries[i - 1], rev)
+        m = self._mk[(i, rev)]
+        return json.loads(m) if self.unhashable[i - 1] else m
 
     def idx(self, obj):
         """universe index of a real object, or a description of a foreign object."""
@@ -445,8 +462,8 @@ def replay_map(ctx, env, rec, variant, prev_items, mut=None, drop=None):
             new, val = val, None
             if type(new) is not AssignmentMap:
                 ctx.drift("merge-result-class", {"got": type(new).__name__})
-            old = project_map(env, am, calls)
-            bad = judge_map_projection(env, old, prev_items[n])
+            # (every prefix is replayed as a behaviour of its own: the receiver is inspected when merge is the last call)
+            bad = judge_map_projection(env, project_map(env, am, calls), prev_items[n]) if n + 1 == len(rec["hist"]) else []
             if bad:
                 fails.append((map_signature(env, rec, e, "mutates-receiver"), f"merge changed its receiver: {bad[0][1]}"))
                 return fails
@@ -479,7 +496,7 @@ def replay_map(ctx, env, rec, variant, prev_items, mut=None, drop=None):
         ctx.drift("get-calls-default-function", {"mode": mode})
     # equality: against every map of the family (spec: Fn(m) = Fn(other)) and a re-ordered copy of itself
     if not fails:
-        for j, want in enumerate(rec["eq"], 1):
+        for j, want in [(j, w) for j, w in enumerate(rec["eq"], 1) if w or (j + len(rec["hist"]) + variant) % 3 == 0]:
             o = AssignmentMap(env.pairs(j, not rev))
             st, r = call(lambda: am == o)
             st2, r2 = call(lambda: am != o)
@@ -574,7 +591,12 @@ def diverged(fails):
     return any(".__eq__:" not in f[0] for f in fails)
 
 
-def run_map(ctx, cfg, tag, variants=(0, 1), mut=None, drop=None, only=None, tlc=None):
+def pick(variants, thin, n, length, maxlen):
+    """thin (quick tier): behaviours of maximal length are replayed under one of the representations, alternating."""
+    return (variants[n % len(variants)],) if thin and length == maxlen and maxlen > 1 else variants
+
+
+def run_map(ctx, cfg, tag, variants=(0, 1), mut=None, drop=None, only=None, tlc=None, thin=False):
     res, uni, recs, what = tlc if tlc is not None else tlc_container(ctx, "X03_AssignMap", MAP_CFG, cfg, tag, "")
     ctx.add_tlc(res, f"AssignmentMap machine {tag}: all operation sequences of length <= {cfg['maxlen']} over keys "
                      f"{cfg['keys']} x values {cfg['vals']} x modes {cfg['modes']} x initial maps {cfg['inits']}")
@@ -592,7 +614,7 @@ def run_map(ctx, cfg, tag, variants=(0, 1), mut=None, drop=None, only=None, tlc=
         prev_items = []
         for i in range(len(rec["hist"])):
             prev_items.append([tuple(p) for p in by_key[(key[0], key[1], key[2][:i])]["items"]])
-        for variant in variants:
+        for variant in pick(variants, thin, n, len(rec["hist"]), cfg["maxlen"]):
             if only is None and (key[0], key[1], key[2][:-1], variant) in failed and rec["hist"]:
                 failed.add((key[0], key[1], key[2], variant))
                 ctx.skip("map behaviour extends a behaviour that already failed (state diverged)")
@@ -756,7 +778,9 @@ def replay_set(ctx, env, by_key, init, script, variant, mut=None, drop=None):
             if type(new) is not AssignmentSet:
                 return [(set_signature(env, init, hist, e, "result-is-not-an-AssignmentSet"),
                          f"{op} after {list(cur[1][:-1])} returned a {type(new).__name__}")], None
-            for name, obj, want in (("receiver", s, members), ("argument", o, cfg["others"][e["o"] - 1])):
+            # (every prefix is replayed as a behaviour of its own: the operands are inspected when this is the last call)
+            for name, obj, want in ((("receiver", s, members), ("argument", o, cfg["others"][e["o"] - 1]))
+                                    if n + 1 == len(script) else ()):
                 bad = judge_set_projection(env, project_set(env, obj), want)
                 if bad:
                     return [(set_signature(env, init, hist, e, "mutates-operand", bad[0][2], want),
@@ -781,7 +805,8 @@ def replay_set(ctx, env, by_key, init, script, variant, mut=None, drop=None):
     if not fails:
         # equality with the family (spec: s = Other(j)) and with a copy built in another order
         tw = uni.twins_in(set(members))
-        for j, want in list(enumerate(rec["eq"], 1)) + [(0, True)]:
+        js = [(j, w) for j, w in enumerate(rec["eq"], 1) if w or (j + len(cur[1]) + variant) % 3 == 0] + [(0, True)]
+        for j, want in js:
             o = env.build(cfg["others"][j - 1] if j else sorted(members), 1 - variant)
             st, r = call(lambda: (s == o, s != o))
             ctx.evaluations += 2
@@ -830,7 +855,7 @@ def py_set_reference(env, rec):
             raise TLCFailure(f"oracle cross-check (set eq) failed on {rec}")
 
 
-def run_set(ctx, cfg, tag, variants=(0, 1), mut=None, drop=None, only=None, tlc=None):
+def run_set(ctx, cfg, tag, variants=(0, 1), mut=None, drop=None, only=None, tlc=None, thin=False):
     res, uni, recs, what = tlc if tlc is not None else tlc_container(ctx, "X03_AssignSet", SET_CFG, cfg, tag, "")
     ctx.add_tlc(res, f"AssignmentSet machine {tag}: all operation sequences of length <= {cfg['maxlen']} over items "
                      f"{cfg['keys']}, binary operations {cfg['binops']} with family sets {cfg['bin']}, pop={cfg['pop']}, "
@@ -849,7 +874,7 @@ def run_set(ctx, cfg, tag, variants=(0, 1), mut=None, drop=None, only=None, tlc=
     for n, (init, script) in enumerate(sorted(scripts, key=lambda x: (len(x[1]), x))):
         if only is not None and (init, script) != only:
             continue
-        for variant in variants:
+        for variant in pick(variants, thin, n, len(script), cfg["maxlen"]):
             if only is None and script and (init, script[:-1], variant) in failed:
                 failed.add((init, script, variant))
                 ctx.skip("set behaviour extends a behaviour that already failed (state diverged)")
@@ -1063,7 +1088,7 @@ def dict_key(rec):
     return json.dumps([sorted(rec["start"]), [[e["op"], sorted(e["d"])] for e in rec["hist"]]])
 
 
-def run_dict(ctx, track, maxlen, size, dirs, tag, variants=(0, 1), mut=None, drop=None, only=None, tlc=None):
+def run_dict(ctx, track, maxlen, size, dirs, tag, variants=(0, 1), mut=None, drop=None, only=None, tlc=None, thin=False):
     res, recs, what = tlc if tlc is not None else tlc_dict(ctx, track, maxlen, size, dirs, tag, "")
     ctx.add_tlc(res, f"dictionary helpers, track {track} ({size}, length <= {maxlen}, directions {dirs})")
     recs.sort(key=lambda r: len(r["hist"]))
@@ -1076,7 +1101,7 @@ def run_dict(ctx, track, maxlen, size, dirs, tag, variants=(0, 1), mut=None, dro
             py_dict_reference(rec)
             ctx.count("oracle_crosschecks")
         prefix = dict_key(dict(rec, hist=rec["hist"][:-1])) if rec["hist"] else None
-        for variant in variants:
+        for variant in pick(variants, thin, n, len(rec["hist"]), maxlen):
             if only is None and track != "pairs" and prefix is not None and (prefix, variant) in failed:
                 failed.add((key, variant))
                 ctx.skip("dictionary behaviour extends a behaviour that already failed")
@@ -1229,14 +1254,18 @@ def run(ctx):
         for i, (track, maxlen, size, dirs) in enumerate(dicts):
             jobs.append(("dict", f"{track}{i}", (track, maxlen, size, dirs),
                          _POOL.submit(tlc_dict, ctx, track, maxlen, size, dirs, f"{track}{i}", "")))
+        timing = ctx.extra.setdefault("replay_wall_s", {})
         for part, tag, cfg, fut in jobs:
             tlc = fut.result()
+            t0 = time.time()
+            thin = ctx.tier == "quick"
             if part == "map":
-                run_map(ctx, cfg, tag, tlc=tlc)
+                run_map(ctx, cfg, tag, tlc=tlc, thin=thin)
             elif part == "set":
-                run_set(ctx, cfg, tag, tlc=tlc)
+                run_set(ctx, cfg, tag, tlc=tlc, thin=thin)
             else:
-                run_dict(ctx, *cfg, tag, tlc=tlc)
+                run_dict(ctx, *cfg, tag, tlc=tlc, thin=thin)
+            timing[f"{part}:{tag}"] = round(time.time() - t0, 2)
         probe_unspecified(ctx)
     ctx.exhaustive = True
 
